@@ -20,7 +20,7 @@ ASSUMPTIONS = [
     '(stale ghosts included), 1.0*n_layers when that product is below 1e-6',
     'no NaN among coordinates and smoothing lengths',
 ]
-READY = False
+READY = True
 DESIGN_REF = '6/C07'
 TECHNIQUE = 'Lean 4 proof over a hand-written model + exact (Rat / bit-exact Float) correspondence check'
 LEVEL_TEXT = ("Lean 4 theorems over every ordered field, box, flag combination, layer thickness, copied-property "
